@@ -247,6 +247,11 @@ func (f *FnVC) lookupIdent(env *Env, name string) (TV, bool) {
 			return tv, true
 		}
 	}
+	if name == "goSpawns" || name == "chanRecvs" || name == "chanSends" {
+		// activation-local counters of go statements and channel receives executed by this function
+		h := f.regHeap("Gh_$"+name, "Int")
+		return TV{T: env.st.get(h), Ty: intTy, Sort: "Int"}, true
+	}
 	if h, ty, ok := f.ghostHeap(name); ok {
 		tv := TV{T: env.st.get(h), Ty: ty, Sort: f.heapSort[h]}
 		if gv := f.g.specs.Ghosts[name]; strings.HasPrefix(gv.Type, "gmap[") {
@@ -569,7 +574,18 @@ func (f *FnVC) trIndex(env *Env, x SIndex) TV {
 	if a.Ty == nil {
 		if d, ok := f.ghostDesc[a.T]; ok {
 			parts := strings.SplitN(d, "\x00", 2)
-			_, vtxt := splitGmap(parts[0])
+			ktxt, vtxt := splitGmap(parts[0])
+			if kt := f.g.resolveType(ktxt, parts[1], f.pkgPath()); kt != nil && i.Ty != nil {
+				// a concrete value used as key of a map keyed by an interface type: box it
+				if _, kIface := kt.Underlying().(*types.Interface); kIface {
+					if _, iIface := i.Ty.Underlying().(*types.Interface); !iIface && i.Sort == "Int" && i.T != "0" {
+						if _, isPtr := i.Ty.Underlying().(*types.Pointer); isPtr {
+							box, _ := f.boxFun(i.Ty)
+							i = TV{sApp(box, i.T), kt, "Int"}
+						}
+					}
+				}
+			}
 			t := sSel(a.T, i.T)
 			if strings.HasPrefix(vtxt, "gmap[") {
 				f.ghostDesc[t] = vtxt + "\x00" + parts[1]
